@@ -217,6 +217,9 @@ func (e *Engine) findAllIndicesLoop(haystack []byte, n int, results [][2]int) []
 		if found {
 			results = append(results, [2]int{start, end})
 		}
+		if verifhook.On {
+			verifhook.Emit("iteranch", 1, len(results), start, end)
+		}
 		return results
 	}
 
